@@ -68,3 +68,8 @@ CLAIMS["C03"] = (
     "Generated lists x versions 3.0/3.1/4.0 x pixel sizes x name formats x optics on/off are exported in memory and through files (parsed independently) and imported back; independently written RELION inputs (origins in px/Angstrom, half-set columns, pixel size via column/optics/argument) are imported. One-directional oracles (M_rln R_cc == I, rlnCoordinate == x+shift, shift == -origin/px) catch convention errors that a symmetric round trip would hide. Held on everything explored.",
     "Conventions fixed in the harness: R_cc = Rz(psi)Rx(theta)Rz(phi), M_rln = Rz(rot)Ry(tilt)Rz(psi); binning 1.0; tolerance 2e-7 on matrices, 5e-7 on file positions.",
 )
+CLAIMS["C07"] = (
+    "property-based validity-predicate test (separation + domination + group independence) with brute-force distance computation; metamorphic per-group re-run",
+    "Generated clustered particle lists and plateau-free score/angle maps; the result of clean_by_distance / scores_extract_particles is checked against the validity predicate of the statement (not against a re-implementation of the greedy order), plus field preservation, 1-based positions, score and angle lookup. Held on everything explored.",
+    "Exact-distance and threshold ties are filtered and counted; optional arguments of the peak extraction left at defaults.",
+)
